@@ -843,6 +843,81 @@ theorem C13_constructor_alias_counterexample :
   simp [constructHeapAliased, sortInPlace, hord, AnyFilt.sortTimes, AnyFilt.T, Filt.sortTimes, hasDup,
     Except.map, F]
 
+/-! ## array / list arguments: the posterior keeps the contents it was built with -/
+
+/-- no later write of the caller into OTHER cells and no later constructor call changes a cell -/
+theorem bufRun_keeps {γ : Type} :
+    ∀ (evs : List (BufEv γ)) (h : Buffers γ) (k : Nat) (a : List γ), h[k]? = some a →
+      (∀ e ∈ evs, e.writes k = false) → (bufRun h evs)[k]? = some a := by
+  intro evs
+  induction evs with
+  | nil => intro h k a hk _; simpa [bufRun] using hk
+  | cons e es ih =>
+    intro h k a hk hno
+    have hklt : k < h.length := by
+      rcases Nat.lt_or_ge k h.length with hlt | hge
+      · exact hlt
+      · rw [List.getElem?_eq_none hge] at hk; cases hk
+    have he := hno e (by simp)
+    have hes : ∀ e' ∈ es, e'.writes k = false := fun e' he' => hno e' (by simp [he'])
+    have hstep : (bufStep h e)[k]? = some a := by
+      cases e with
+      | construct p => simp only [bufStep]; rw [List.getElem?_append_left hklt]; exact hk
+      | write j v =>
+        have hj : j ≠ k := by
+          intro hjk; subst hjk; simp [BufEv.writes] at he
+        simp only [bufStep]
+        rw [List.getElem?_set_ne hj]; exact hk
+    have := ih (bufStep h e) k a hstep hes
+    simpa [bufRun] using this
+
+/-- the constructor's copy of an array / list argument (times, sigma, covariates) is a NEW cell holding
+    the argument's contents at the moment of the call, and it holds them at every later moment: whatever
+    the caller writes into its own containers afterwards (it has no handle on the new cell) and however
+    many further posteriors are built from them -/
+theorem C13_constructor_keeps_array_arguments {γ : Type} (h : Buffers γ) (p : Nat) (a : List γ)
+    (hp : h[p]? = some a) (later : List (BufEv γ))
+    (hcaller : ∀ e ∈ later, e.writes h.length = false) :
+    (bufStep h (.construct p)).length = h.length + 1 ∧
+    (∀ i, i < h.length → (bufStep h (.construct p))[i]? = h[i]?) ∧
+    (bufRun h (.construct p :: later))[h.length]? = some a := by
+  refine ⟨by simp [bufStep], fun i hi => by simp [bufStep, List.getElem?_append_left hi], ?_⟩
+  have : bufRun h (.construct p :: later) = bufRun (h ++ [a]) later := by
+    simp [bufRun, bufStep, hp]
+  rw [this]
+  exact bufRun_keeps later _ _ _ (by simp) hcaller
+
+theorem bufRun_cohorts {γ : Type} :
+    ∀ (vs : List (List γ)) (b : List γ) (t : Buffers γ),
+      ∃ b', bufRun (b :: t) (cohorts vs) = b' :: (t ++ vs) := by
+  intro vs
+  induction vs with
+  | nil => intro b t; exact ⟨b, by simp [bufRun, cohorts]⟩
+  | cons v vs ih =>
+    intro b t
+    obtain ⟨b', hb'⟩ := ih v (t ++ [v])
+    refine ⟨b', ?_⟩
+    have : bufRun (b :: t) (cohorts (v :: vs)) = bufRun (v :: (t ++ [v])) (cohorts vs) := by
+      simp [bufRun, cohorts, bufStep]
+    rw [this, hb']
+    simp
+
+/-- one posterior per cohort from ONE re-used buffer: after any number of cohorts the `k`-th posterior's
+    own array holds the `k`-th cohort's values -/
+theorem C13_cohort_posteriors_keep_their_covariates {γ : Type} (buf : List γ) (vs : List (List γ))
+    (k : Nat) : (bufRun [buf] (cohorts vs))[1 + k]? = vs[k]? := by
+  obtain ⟨b', hb'⟩ := bufRun_cohorts vs buf []
+  rw [hb']
+  simp [Nat.add_comm 1 k]
+
+/-- why it has to be `np.array` and not `np.asarray`: with the caller's container kept (NOT chi) both
+    cohorts' posteriors hold the one handle `0`, whose contents are the second cohort's values -/
+theorem C13_asarray_counterexample :
+    let evs : List (BufEv Nat) := cohorts [[1], [2]]
+    (bufRun [[0]] evs)[1]? = some [1] ∧ (bufRun [[0]] evs)[2]? = some [2] ∧
+    bufRunAliased ([[0]], []) evs = ([[2]], [0, 0]) := by
+  decide
+
 /-! ## call histories: results stay what they were -/
 
 theorem hist_append {γ : Type} (F : List γ → List γ) (h : Arrays γ) (a b : List (Ev γ)) :
